@@ -317,6 +317,7 @@ def run(rep, tier, seed):
                     rep.violation("C09:%s:document-differs:%s" % (name, d[0]), "at %s: original %r, rewritten %r" % (d[0], d[1], d[2]), vcase)
     alias_pass(rep, rng, quick)
     nesting_and_names_pass(rep, rng, quick)
+    query_pass(rep, rng, quick)
     rep.sample({"original": groups[0][1][:700], "rewritten": groups[0][2][2][1][:900], "renaming": dict(list(groups[0][2][2][2].items())[:8])})
     rep.rule = ("generated models (30% with an injected semantic error) re-rendered with redundant parentheses around "
                 "operands, blanks / newlines / comments / line continuations between tokens and the other spelling of "
@@ -398,6 +399,79 @@ def nesting_and_names_pass(rep, rng, quick):
             d = deepdiff.first_diff(oa["doc"], ob["doc"])
             if d:
                 rep.violation("C09:whitespace-in-name:document-differs", "at %s: %r vs %r" % (d[0], d[1], d[2]), c)
+
+
+def query_pass(rep, rng, quick):
+    """The rewrites applied to query texts: (a) keyword aliases against symbolic forms in every query form of the
+    catalogue (token level); (b) several queries in one text, with and without a line comment at the end of the lines
+    and with block comments / blanks between tokens."""
+    from .. import queries as Q, exprlab
+    cat = Q.catalogue(rng, 1500 if quick else 30000)
+    extra = ["control: A[] (P1.A and A<> P1.B)", "control: A[] (P1.A && A<> P1.B)", "E<> control: A[] (b and i > 0 and A<> P1.C)",
+             "control: A[] (not b or i > 0 and A<> P1.C)", "A[] (b and not (i > 3 or P1.A)) imply P2.B", "E<> P1.A and not P2.B or b",
+             "A[] not deadlock", "(b and P1.A) --> (P1.B or not b)", "Pr[<=10](<> P1.A and b)", "sup{b and not P1.A}: i", "simulate [<=10] {i} : b and P1.B"]
+    texts = [t for _, t in cat] + extra
+    sym, kw = [], []
+    for txt in texts:
+        # aliases are spelled the same in query syntax; strings (strategy file names) are left alone
+        parts = re.split(r'("[^"]*")', txt)
+        a, b = [], []
+        for pi, part in enumerate(parts):
+            if pi % 2:
+                a.append(part)
+                b.append(part)
+                continue
+            a.append(re.sub(r"\b(and|or|not)\b", lambda mo: ALIAS[mo.group(1)] + (" " if mo.group(1) == "not" else ""), part))
+            b.append(re.sub(r"&&|\|\||!(?!=)", lambda mo: " " + UNALIAS[mo.group(0)] + " ", part))
+        sym.append("".join(a))
+        kw.append("".join(b))
+    rs = exprlab.run_queries(sym, Q.MODEL, flags="", batch=25, tag="qs")
+    rk = exprlab.run_queries(kw, Q.MODEL, flags="", batch=25, tag="qk")
+    n = 0
+    for a, b, (ra, ca, xa), (rb, cb, xb) in zip(sym, kw, rs, rk):
+        if a == b:
+            continue
+        vcase = Case("replay", [ca.steps[0], Step("query", 0, "", a, b)])
+        if xa is not None or xb is not None:
+            rep.crash(xa or xb, vcase)
+            continue
+        n += 1
+        oa = (ra.get("exc"), ra.get("nerr"), sorted(ra.get("errors") or []), [p_["dump"] for p_ in ra.get("props", [])])
+        ob = (rb.get("exc"), rb.get("nerr"), sorted(rb.get("errors") or []), [p_["dump"] for p_ in rb.get("props", [])])
+        rep.observe(("query-alias", a))
+        if oa != ob:
+            rep.violation("C09:query-aliases:%s-differ" % ("trees" if oa[:3] == ob[:3] else "diagnostics"),
+                          "query %r gives %s, its keyword spelling %r gives %s" % (a, oa[:3], b, ob[:3]), vcase)
+    rep.extra["query_alias_pairs"] = n
+    # (b) several queries in one property text
+    m = 0
+    for i in range(200 if quick else 4000):
+        qs = [t for _, t in Q.catalogue(rng, rng.randint(2, 4)) if "\n" not in t and '"' not in t]
+        if len(qs) < 2:
+            continue
+        plain = "\n".join(qs)
+        noisy = "\n".join(q + rng.choice(["", " // remark", "  // E<> true", " /* c */", "\t//", " // a */"]) for q in qs)
+        lead = rng.choice(["", "// header\n", "/* header */\n", "\n"])
+        c = Case("mq%d" % i, [Step("parse_doc", 0, "xml_buffer", 1, 0, Q.MODEL), Step("query", 0, "", plain), Step("query", 0, "", lead + noisy)], timeout=60)
+        r = run_cases([c])[c.id] if False else None
+        rep.extra.setdefault("_mq", []).append(c)
+    mq = rep.extra.pop("_mq", [])
+    mres = run_cases(mq)
+    for c in mq:
+        r = mres[c.id]
+        if r["status"] != "ok":
+            rep.crash(r, c)
+            continue
+        ra, rb = r["steps"][1]["results"][0], r["steps"][2]["results"][0]
+        m += 1
+        oa = (ra.get("exc"), ra.get("nerr"), sorted(ra.get("errors") or []), [p_["dump"] for p_ in ra.get("props", [])])
+        ob = (rb.get("exc"), rb.get("nerr"), sorted(rb.get("errors") or []), [p_["dump"] for p_ in rb.get("props", [])])
+        rep.observe(("multi-query", c.steps[2].args[2]))
+        if oa != ob:
+            rep.violation("C09:comments-in-query-list:%s-differ" % ("trees" if oa[:3] == ob[:3] else "diagnostics"),
+                          "%d queries in one text: plain gives %s / %d properties, with comments %s / %d properties" % (
+                              c.steps[1].args[2].count(b"\n") + 1, oa[:3], len(oa[3]), ob[:3], len(ob[3])), c)
+    rep.extra["multi_query_texts"] = m
 
 
 ALIAS = {"and": "&&", "or": "||", "not": "!"}
